@@ -140,6 +140,20 @@ def gen_mesh(rng, big=False, allow_bad=True):
             tags.append("bad-index")
     return tags, vs, ts
 
+def nan_normal_risk(vs, ts):
+    """a vertex whose adjacent unit triangle normals (nearly) cancel, or a (nearly) zero-area triangle: the tri writer
+    would print nan (known finding, keyed by its own witness) - such meshes are not sent through .tri"""
+    acc = {}
+    for t in ts:
+        if max(t) >= len(vs): return False
+        n = models.tri_normal(vs, t); l = math.sqrt(n[0] ** 2 + n[1] ** 2 + n[2] ** 2)
+        e = max(max(abs(c) for c in vs[a]) for a in t) or 1.0
+        if l <= 1e-9 * e * e: return True
+        for a in set(t):
+            x = acc.setdefault(a, [0.0, 0.0, 0.0])
+            for k in range(3): x[k] += n[k] / l
+    return any(math.sqrt(x[0] ** 2 + x[1] ** 2 + x[2] ** 2) < 1e-6 for x in acc.values())
+
 # ---------------------------------------------------------------- cases
 def case_roundtrip(fmt, flags, vs, ts):
     return "c15 " + " ".join(map(str, [1, fmt, flags] + mesh_wire(vs, ts) + table(allcoords(vs), rnd_of(fmt))))
@@ -352,7 +366,7 @@ def judge(ck, line, m, i, cid):
         return ("differ", "model %s | implementation %s" % (m[:160], i[:160]))
     return None
 
-def shrink(ck, hb, tooldir, line, pred, rounds=25):
+def shrink(ck, hb, tooldir, line, pred, rounds=6):
     """greedy removal of triangles while pred(model_out, impl_out, line) still holds"""
     cur = line
     for _ in range(rounds):
@@ -363,7 +377,7 @@ def shrink(ck, hb, tooldir, line, pred, rounds=25):
             if len(ts) <= 1: continue
             for k in range(len(ts)):
                 cands.append(rebuild(cur, ts[:k] + ts[k + 1:], which))
-        cands = cands[:60]
+        cands = cands[:24]
         if not cands: break
         mo, io = run_both(ck, hb, cands, tooldir)
         nxt = None
@@ -397,23 +411,24 @@ def main(replay=None):
         for name, c in wit: cases.append(c); labels.append("witness:" + name)
         nmesh = 130 if quick else 1500
         for k in range(nmesh):
-            tags, vs, ts = gen_mesh(rng, big=(k % 16 == 0))
+            tags, vs, ts = gen_mesh(rng, big=(not quick and k % 40 == 0))   # 320-triangle meshes cost the extracted model minutes (unary nat): thorough tier only
             flags = 0 if ("flipped" in tags and rng.random() < 0.6) else 1
             lab = ",".join(tags)
+            risky = nan_normal_risk(vs, ts)
+            if risky: lab += ",nan-normal-risk(no .tri)"
             for fmt in range(4):
+                if fmt == 0 and risky: continue
                 cases.append(case_roundtrip(fmt, flags, vs, ts)); labels.append("roundtrip:" + lab)
-            fmt = rng.randint(0, 4)
-            cases.append(case_writer(fmt, flags, len(cases), vs, ts)); labels.append("writer:" + lab)
-            if k % 4 == 0:
-                fmt = rng.randint(0, 4)
+            for _ in range(2 if k % 4 == 0 else 1):
+                fmt = rng.randint(1 if risky else 0, 3 if risky else 4)
                 cases.append(case_writer(fmt, flags, len(cases), vs, ts)); labels.append("writer:" + lab)
             if k % 3 == 0:
                 v2, t2 = second_mesh(rng, vs, ts)
                 cases.append(case_merge(1, (vs, ts), (v2, t2))); labels.append("merge:" + lab)
                 if k % 6 == 0:
-                    cases.append(case_concat(rng.randint(0, 3), 1, len(cases), (vs, ts), (v2, t2))); labels.append("concat:" + lab)
+                    cases.append(case_concat(rng.randint(1 if (risky or nan_normal_risk(v2, t2)) else 0, 3), 1, len(cases), (vs, ts), (v2, t2))); labels.append("concat:" + lab)
             if k % 5 == 0:
-                cases.append(case_convert(rng.randint(0, 3), rng.randint(0, 3), flags, len(cases), vs, ts)); labels.append("convert:" + lab)
+                cases.append(case_convert(rng.randint(1 if risky else 0, 3), rng.randint(1 if risky else 0, 3), flags, len(cases), vs, ts)); labels.append("convert:" + lab)
     mo, io = run_both(ck, hb, cases, tooldir)
     dist = {}; tagdist = {}; nontriv = set(); mism = []; relfail = []; errpaths = 0; files_cmp = 0
     for cid, (c, lab, m, i) in enumerate(zip(cases, labels, mo, io)):
@@ -435,21 +450,23 @@ def main(replay=None):
                 r = relation_roundtrip(fmt, before, after)
                 if r: relfail.append((c, lab, fmt, r, bool(unused)))
     # ---- decide
-    for c, lab, fmt, r, unused in relfail[:20]:
+    relfail.sort(key=lambda x: len(x[0]))          # smallest failing meshes first
+    for n, (c, lab, fmt, r, unused) in enumerate(relfail[:6]):
         if lab == "witness:nan-normal-tri":
             sig = NAN_SIG
         else:
             pred = lambda cc, mm, ii: _rel_fails(cc, ii)
-            c = shrink(ck, hb, tooldir, c, pred)
+            if n < 2: c = shrink(ck, hb, tooldir, c, pred)
             sig = "roundtrip %s: %s" % (FMT[fmt], short(c)[:200])
         ck.violation(sig, "a mesh is not the same after save+load in format %s (%s): %s" % (FMT[fmt], r, short(c)),
                      dict(kind="property-relation", cases=[c], replay_cmd="./check C15 --replay <this file>"))
     known_model_agrees = 0
-    for c, lab, m, i, (kind, text) in mism[:20]:
+    mism.sort(key=lambda x: len(x[0]))
+    for n, (c, lab, m, i, (kind, text)) in enumerate(mism[:6]):
         if lab == "witness:nan-normal-tri": continue      # reported through the property relation above
         op = int(c.split()[1])
         pred = lambda cc, mm, ii: judge(ck, cc, mm, ii, 0) is not None
-        c2 = shrink(ck, hb, tooldir, c, pred) if kind != "malformed" else c
+        c2 = shrink(ck, hb, tooldir, c, pred) if (kind != "malformed" and n < 2) else c
         name = describe(c2)[0]
         ck.violation("%s: model and implementation differ: %s" % (name, short(c2)[:200]),
                      "%s: the implementation does not behave like the model proved in Properties_C15.v (%s) on %s" % (name, text[:300], short(c2)),
